@@ -134,11 +134,25 @@ def window(ctx: Any) -> List[Ob]:
         except lf.NotLinear:
             pass
     obs.append(ob(R, ls, cmps[0] if cmps else 'now - created < 1000', 'a record counts as recently multicast iff it was seen less than 1000 ms before the query arrived', ok_ls))
+    from .c11 import sighting_predicate_table
+
+    obs.extend(sighting_predicate_table(ctx, R, '_has_mcast_record_in_last_second'))
     tc = prog.const('zeroconf._listener', '_TC_DELAY_RANDOM_INTERVAL')
     obs.append(ob(R, ('src/zeroconf/_listener.py', '<module>'), f'_TC_DELAY_RANDOM_INTERVAL = {tuple(tc)}', 'a truncated query is held a random 400-500 ms', tuple(tc) == (400, 500)))
     hq = prog.func(LS + '.handle_query_or_defer')
     rnd = [c for c in walk_local_ordered(hq.node) if isinstance(c, ast.Call) and call_name(c) == 'randint']
     obs.append(ob(R, hq, rnd[0] if rnd else 'random.randint', 'the hold time is drawn from that interval', len(rnd) == 1 and len(rnd[0].args) == 1 and isinstance(rnd[0].args[0], ast.Starred) and norm(rnd[0].args[0].value) == '_TC_DELAY_RANDOM_INTERVAL'))
+    # ... and the timer is armed that far AHEAD of the loop's clock, in the loop's unit: loop.time() + millis_to_seconds(draw)
+    arms_tc = [c for c in walk_local_ordered(hq.node) if isinstance(c, ast.Call) and call_name(c) == 'call_at']
+    ok_tc = False
+    if len(arms_tc) == 1 and rnd:
+        t_ = expand(hq, arms_tc[0].args[0])
+        if isinstance(t_, ast.BinOp) and isinstance(t_.op, ast.Add):
+            parts_ = [t_.left, t_.right]
+            lt_ = [p_ for p_ in parts_ if isinstance(p_, ast.Call) and call_name(p_) == 'time']
+            ms_ = [p_ for p_ in parts_ if isinstance(p_, ast.Call) and call_name(p_) == 'millis_to_seconds' and p_.args and any(x is rnd[0] or norm(x) == norm(rnd[0]) for x in ast.walk(p_.args[0])) and norm(p_.args[0]) == norm(rnd[0])]
+            ok_tc = len(lt_) == 1 and len(ms_) == 1
+    obs.append(ob(R, hq, arms_tc[0].args[0] if arms_tc else 'loop.call_at(loop.time() + delay, ...)', 'the held query is answered at the loop\'s time plus the drawn hold time, converted to seconds', ok_tc))
     return obs
 
 
@@ -351,6 +365,8 @@ def wiring(ctx: Any) -> List[Ob]:
             ok_t = ok_t and d == lf.parse_poly('T - NOW')
         except (lf.NotLinear, IndexError):
             ok_t = False
+        # the remaining time is added to the loop's clock: loop.time() + millis_to_seconds(...)
+        ok_t = ok_t and isinstance(t, ast.BinOp) and isinstance(t.op, ast.Add) and sorted(call_name(p) if isinstance(p, ast.Call) else '?' for p in (t.left, t.right)) == ['millis_to_seconds', 'time']
     obs.append(ob(R, rdy, 'call_at(loop.time() + millis_to_seconds(<deadline> - now), self.async_ready)', 'the flush re-arms itself for exactly the time remaining to the next deadline', ok_t))
     # wait-for-deadline test: len(queue) > 1 and queue[0].send_before > now
     ifs = [n for n in walk_local_ordered(rdy.node) if isinstance(n, ast.If) and 'send_before' in norm(n.test)]
